@@ -112,6 +112,12 @@ def expr_types(e, fv: FuncView, at, assume: Dict[str, List[str]] = None, depth: 
     return {"?"}
 
 
+def _view(repo, f):
+    """The scalar method with the helpers of its module inlined (a conversion or parsing helper is part of the method)."""
+    from .q import inlined_view
+    return inlined_view(repo, f)
+
+
 def success_returns(fv: FuncView, direction: str) -> Tuple[List[ast.Return], List[ast.Return]]:
     """(success returns, failure returns).  A failure return is ``return
     UNDEFINED_VALUE`` (literal direction)."""
@@ -202,7 +208,7 @@ def check_wire_types(ck, repo: Repo, directions=DIRECTIONS):
     for scalar, (rel, cls, wire) in SCALARS.items():
         for d in directions:
             f = scalar_method(repo, scalar, d)
-            fv = FuncView(f)
+            fv = _view(repo, f)
             succ, _ = success_returns(fv, d)
             if not succ:
                 raise AnalysisError(f"{f.short}: no successful return found")
@@ -224,7 +230,7 @@ def check_guards(ck, repo: Repo, directions=DIRECTIONS):
           where=imod.relpath, construct="int:constants", detail=f"_MIN_INT={consts.get('_MIN_INT')} _MAX_INT={consts.get('_MAX_INT')}")
     for d in directions:
         f = scalar_method(repo, "Int", d)
-        fv = FuncView(f)
+        fv = _view(repo, f)
         succ, _ = success_returns(fv, d)
         for r in succ:
             subj = returned_subject(r)
@@ -260,7 +266,7 @@ def check_guards(ck, repo: Repo, directions=DIRECTIONS):
     # ---- Float
     for d in directions:
         f = scalar_method(repo, "Float", d)
-        fv = FuncView(f)
+        fv = _view(repo, f)
         succ, _ = success_returns(fv, d)
         for r in succ:
             subj = returned_subject(r)
@@ -276,31 +282,42 @@ def check_guards(ck, repo: Repo, directions=DIRECTIONS):
     # ---- output conversions that are decided by a guard
     if "coerce_output" in directions:
         f = scalar_method(repo, "Int", "coerce_output")
-        fv = FuncView(f)
-        conv = [n for n in walk_no_nested(f.node) if isinstance(n, ast.Assign) and isinstance(n.value, ast.Call) and dotted(n.value.func) == "int" and unparse(n.value.args[0]) == "float_value"]
-        rs = [r for r in fv.raises() if conv and fv.dominated_by(r, conv[0]) and has_condition(fv, r, f"{unparse(conv[0].targets[0])} == float_value", "F")] if conv else []
+        fv = _view(repo, f)
+        # (helpers inlined) i = int(x) where x = float(<the value>), and a raise under i != x
+        floats = {unparse(n.targets[0]) for n in walk_no_nested(fv.node) if isinstance(n, ast.Assign) and isinstance(n.value, ast.Call) and dotted(n.value.func) == "float"}
+        conv = [n for n in walk_no_nested(fv.node) if isinstance(n, ast.Assign) and isinstance(n.value, ast.Call) and dotted(n.value.func) == "int" and n.value.args
+                and unparse(n.value.args[0]) in floats]
+        rs = []
+        if conv:
+            i_, x_ = unparse(conv[0].targets[0]), unparse(conv[0].value.args[0])
+            rs = [r for r in fv.raises() if fv.dominated_by(r, conv[0]) and (has_condition(fv, r, f"{i_} == {x_}", "F") or has_condition(fv, r, f"{x_} == {i_}", "F"))]
         ck.ob("Int.coerce_output: a numeric string is accepted only when its value is integral (int(x) must equal x: never truncated)", len(conv) == 1 and len(rs) == 1, f,
               conv[0] if conv else f.node, construct="int:output:string-integral")
         if conv:
             ok = has_condition(fv, conv[0], "isinstance(value, str)", "T")
             ck.ob("Int.coerce_output: the string conversion applies to strings only", ok, f, conv[0], construct="int:output:string-only")
         f = scalar_method(repo, "String", "coerce_output")
-        fv = FuncView(f)
+        fv = _view(repo, f)
         br = [r for r in fv.returns() if has_condition(fv, r, f"isinstance({f.positional_params[1]}, bool)", "T")]
         from .q import ifexp_parts
-        ok = len(br) == 1 and ifexp_parts(br[0].value) == (f.positional_params[1], "'true'", "'false'")
+        v_ = f.positional_params[1]
+        ok = len(br) == 1 and ifexp_parts(br[0].value) == (v_, "'true'", "'false'")
+        if not ok and len(br) == 2:
+            # the same choice as two guarded returns
+            spelled = {unparse(r.value): ("T" if has_condition(fv, r, v_, "T") else "F" if has_condition(fv, r, v_, "F") else "?") for r in br}
+            ok = spelled == {"'true'": "T", "'false'": "F"}
         ck.ob("String.coerce_output: booleans are spelled true / false (True -> \"true\")", ok, f, br[0] if br else f.node, construct="string:output:bool")
         sr = [r for r in fv.returns() if unparse(r.value) == f.positional_params[1]]
         ck.ob("String.coerce_output: a string is returned as is", len(sr) == 1 and has_condition(fv, sr[0], f"isinstance({f.positional_params[1]}, str)", "T"), f, sr[0] if sr else f.node,
               construct="string:output:str")
         f = scalar_method(repo, "Boolean", "coerce_output")
-        fv = FuncView(f)
+        fv = _view(repo, f)
         cr = [r for r in fv.returns() if unparse(r.value) == f"bool({f.positional_params[1]})"]
         ck.ob("Boolean.coerce_output: only finite numbers are converted with bool()", len(cr) == 1 and has_condition(fv, cr[0], f"isfinite({f.positional_params[1]})", "T"), f,
               cr[0] if cr else f.node, construct="boolean:output:finite")
     for d in [x for x in directions if x in ("coerce_output", "coerce_input")]:
         f = scalar_method(repo, "ID", d)
-        fv = FuncView(f)
+        fv = _view(repo, f)
         v = f.positional_params[1]
         cr = [r for r in fv.returns() if unparse(r.value) == f"str(int({v}))"]
         ck.ob(f"ID.{d}: only integers are spelled as decimal strings", len(cr) == 1 and has_condition(fv, cr[0], f"is_integer({v})", "T"), f, cr[0] if cr else f.node, construct=f"id:{d}:integer")
@@ -308,14 +325,14 @@ def check_guards(ck, repo: Repo, directions=DIRECTIONS):
     if "coerce_input" in directions:
         for scalar, t in (("String", "str"), ("Boolean", "bool")):
             f = scalar_method(repo, scalar, "coerce_input")
-            fv = FuncView(f)
+            fv = _view(repo, f)
             succ, _ = success_returns(fv, "coerce_input")
             for r in succ:
                 subj = returned_subject(r)
                 ck.ob(f"{scalar}.coerce_input accepts only {t}", has_condition(fv, r, f"isinstance({subj}, {t})", "T") and unparse(r.value) == subj, f, r,
                       construct=f"{scalar.lower()}:input:exact-type")
         f = scalar_method(repo, "ID", "coerce_input")
-        fv = FuncView(f)
+        fv = _view(repo, f)
         for r in success_returns(fv, "coerce_input")[0]:
             subj = returned_subject(r)
             ok = has_condition(fv, r, f"isinstance({subj}, str)", "T") or has_condition(fv, r, f"is_integer({subj})", "T")
@@ -324,7 +341,7 @@ def check_guards(ck, repo: Repo, directions=DIRECTIONS):
 
 def literal_kinds(repo: Repo, scalar: str) -> Set[str]:
     f = scalar_method(repo, scalar, "parse_literal")
-    fv = FuncView(f)
+    fv = _view(repo, f)
     p = f.positional_params[1]
     kinds: Set[str] = set()
     succ, _ = success_returns(fv, "parse_literal")
@@ -362,7 +379,7 @@ def check_failure_exits(ck, repo: Repo, directions=DIRECTIONS):
     for scalar in list(SCALARS) + list(DATE_SCALARS):
         for d in directions:
             f = scalar_method(repo, scalar, d)
-            fv = FuncView(f)
+            fv = _view(repo, f)
             cfg = fv.cfg
             implicit = [(a, lab) for a, lab in cfg.pred[cfg.return_exit.id] if lab != "return"]
             ck.ob(f"{scalar}.{d}: no path falls off the end (silent None)", not implicit, f, f.node, construct=f"exits:{scalar}.{d}:no-fallthrough")
